@@ -19,6 +19,13 @@ def run(tier, argv):
         raw2 = work.path("gen2.txt")
         r2 = vlib.tlc(work, "GenGraph", "GenGraph.cfg", consts={"NTypes": "2", "Level": "2"}, to_file=raw2, timeout=6000, heap="16g")
         rep.add_tlc(r2, "GenGraph 2 types, extended edge forms")
+    # the same family with KeysAreOptionalByDefault on the root and on every type: an unmarked property is an optional edge
+    rawo = work.path("gen-opt.txt")
+    ro = vlib.tlc(work, "GenGraph", "GenGraph.cfg", consts={"NTypes": "2", "Level": "1" if quick else "2", "KeysOptDefault": "TRUE"}, to_file=rawo, timeout=6000, heap="16g")
+    rep.add_tlc(ro, "GenGraph 2 types, keys optional by default")
+    rv = vlib.tlc(work, "GenGraph", "GenGraph.cfg", consts={"NTypes": "2", "Level": "1", "KeysOptDefault": "TRUE", "OptionalOnlyByRule": "TRUE"}, allow_violation=True, timeout=1200)
+    if not rv.violation:
+        raise vlib.Infra("vacuous: switch OptionalOnlyByRule no longer violates MeshModelAgrees")
     raw4 = work.path("gen4.txt")
     r4 = vlib.tlc(work, "GenGraph", "GenGraph.cfg", consts={"NTypes": "2" if quick else "3", "Level": "4"}, to_file=raw4, timeout=6000, heap="16g")
     rep.add_tlc(r4, "GenGraph key-shortcut family (used names, termination)")
@@ -30,7 +37,7 @@ def run(tier, argv):
     n = 0
     wants = {}
     with open(cases, "w") as f:
-        for src in [raw, work.path("gen2.txt"), work.path("gen4.txt")] + ([work.path("gen3.txt")] if not quick else []):
+        for src in [raw, work.path("gen2.txt"), rawo, work.path("gen4.txt")] + ([work.path("gen3.txt")] if not quick else []):
             for l in vlib.tagged_file(src, "@@CASE"):
                 f.write(l + "\n")
                 n += 1
